@@ -369,7 +369,7 @@ func (w *world) expect(signers []pk.Signer) (bool, string) {
 	return false, ""
 }
 
-func (w *world) query(n int, probe func(tx *types.Transaction) (admitted bool, ok bool)) {
+func (w *world) query(n int, probe func(tx *types.Transaction) (path string, admitted bool, ok bool)) {
 	for i := 0; i < n; i++ {
 		shape, signers := w.randomSigners()
 		w.c.Nonce++
@@ -412,17 +412,19 @@ func (w *world) query(n int, probe func(tx *types.Transaction) (admitted bool, o
 			}
 			w.r.Violation(k, fmt.Sprintf("signer set %s (%s) has no registered relayer and no permitted address but is admitted", shape, state), replay)
 		}
-		if probe != nil && i%8 == 0 {
-			adm, ok := probe(tx)
+		if probe != nil && i%4 == 0 {
+			path, adm, ok := probe(tx)
 			if ok {
 				w.r.Count("actor_probes", 1)
 				if adm != want {
-					w.r.Violation("admission:actor-disagrees:"+shape, fmt.Sprintf("tx actor admitted=%v, expected %v", adm, want), replay)
+					w.r.Violation("admission:actor-disagrees:"+path+":"+shape, fmt.Sprintf("submitted to the tx actor as %s: admitted=%v, expected %v", path, adm, want), replay)
 				}
 				if adm {
 					w.r.Count("actor_admitted", 1)
+					w.r.Count("actor_admitted_via_"+path, 1)
 				} else {
 					w.r.Count("actor_refused", 1)
+					w.r.Count("actor_refused_via_"+path, 1)
 				}
 			}
 		}
@@ -432,7 +434,7 @@ func (w *world) query(n int, probe func(tx *types.Transaction) (admitted bool, o
 func TestC36(t *testing.T) {
 	r := kit.Start(t, "C36", "exploration")
 	defer r.Finish()
-	r.Rule("histories of relayer_manager transactions (register / remove requests by users, approvals one validator at a time) committed block by block on a real ledger (up to two removal requests open at once, removal lists in random order that may overlap another open request or name formerly / never registered addresses); after every block a batch of signer sets drawn from 12 shapes (none, user, validator, registered multi-sig, several users, operator multi-sig, other m-of-n of the validators, multi-sig merely containing a member, ...) is submitted to the admission rule; distinct = (shape, registry state of the signers, expected verdict, reason)")
+	r.Rule("histories of relayer_manager transactions (register / remove requests by users, approvals one validator at a time) committed block by block on a real ledger (up to two removal requests open at once, removal lists in random order that may overlap another open request or name formerly / never registered addresses); after every block a batch of signer sets drawn from 12 shapes (none, user, validator, registered multi-sig, several users, operator multi-sig, other m-of-n of the validators, multi-sig merely containing a member, ...) is submitted to the admission rule, every fourth one also to the real tx actor through each submission path in turn (net / http / nil sender, with and without result channel); distinct = (shape, registry state of the signers, expected verdict, reason)")
 	r.Assume("request ids are owned by the model: the k-th successful registerRelayer (RemoveRelayer) transaction is register (removal) request k and its address list is what an approval of id k must add (remove); the chain's announcements are only used to learn THAT an approval reached its quorum")
 	r.Assume("a registration / removal is 'approved and committed' when the committed approval transaction announces ApproveRegisterRelayer / ApproveRemoveRelayer for the request id (how many validator approvals that takes is property C32's subject)")
 	r.Assume("permitted consensus addresses = the addresses of the consensus peers of the current governance view plus their operator multi-sig address (validator set fixed at genesis in these histories); the rule is evaluated the way the tx actor does it: updatePermittedAddrMap, then isValidSender")
@@ -471,28 +473,44 @@ func TestC36(t *testing.T) {
 		srv := proc.NewTxPoolServer(1, true, true)
 		txPid := actor.Spawn(actor.FromProducer(func() actor.Actor { return proc.NewTxActor(srv) }))
 		srv.RegisterActor(tc.TxActor, txPid)
-		probe := func(tx *types.Transaction) (bool, bool) {
-			ch := make(chan *tc.TxResult, 1)
-			txPid.Tell(&tc.TxReq{Tx: tx, Sender: tc.HttpSender, TxResultCh: ch})
-			if _, err := txPid.RequestFuture(&tc.GetTxnCountReq{}, 60*time.Second).Result(); err != nil {
-				return false, false
+		// every submission path of the actor in turn: from a peer (NetSender), over RPC (HttpSender),
+		// internal (NilSender), each with and without a result channel
+		nProbe := 0
+		probe := func(tx *types.Transaction) (string, bool, bool) {
+			senders := []tc.SenderType{tc.NetSender, tc.HttpSender, tc.NilSender}
+			sender := senders[nProbe%3]
+			withCh := (nProbe/3)%2 == 0
+			nProbe++
+			path := sender.Sender()
+			var ch chan *tc.TxResult
+			if withCh {
+				ch = make(chan *tc.TxResult, 1)
+				path += "+channel"
 			}
+			txPid.Tell(&tc.TxReq{Tx: tx, Sender: sender, TxResultCh: ch})
+			if _, err := txPid.RequestFuture(&tc.GetTxnCountReq{}, 60*time.Second).Result(); err != nil {
+				return path, false, false
+			}
+			// admitted = the server now holds the transaction (no validators are registered, so an
+			// admitted transaction stays in the pending list)
 			pending := false
 			for _, h := range srv.VerifPending() {
 				if h == tx.Hash() {
 					pending = true
 				}
 			}
-			refused := false
-			select {
-			case res := <-ch:
-				refused = res.Err != perr.ErrNoError
-			default:
+			if sender == tc.HttpSender && withCh {
+				refused := false
+				select {
+				case res := <-ch:
+					refused = res.Err != perr.ErrNoError
+				default:
+				}
+				if pending == refused {
+					return path, false, false // neither or both: not a clean observation
+				}
 			}
-			if pending == refused {
-				return false, false // neither or both: not a clean observation
-			}
-			return pending, true
+			return path, pending, true
 		}
 
 		// before any refresh of the cache nothing has been read yet: the first submission triggers it
@@ -519,4 +537,8 @@ func TestC36(t *testing.T) {
 	r.Require("expected_refuse_after_removal", 20)
 	r.Require("actor_admitted", 20)
 	r.Require("actor_refused", 20)
+	for _, path := range []string{"net sender", "net sender+channel", "http sender", "http sender+channel", "nil sender", "nil sender+channel"} {
+		r.Require("actor_admitted_via_"+path, 5)
+		r.Require("actor_refused_via_"+path, 10)
+	}
 }
